@@ -430,7 +430,10 @@ pub fn statement<'t>(ctx: Context<'t>) -> ParseResult<'t, Statement> {
                 expression(ctx)?
             };
             let (ctx, body) = statement(ctx)?;
-            (ctx.prev(), Loop { condition, body: Box::new(body) })
+            // The body consumed the newline that also ends this statement - unless it was
+            // ended by an `end`/`else`/`elif` on the same line.
+            let ctx = if matches!(ctx.prev().token(), T::Newline) { ctx.prev() } else { ctx };
+            (ctx, Loop { condition, body: Box::new(body) })
         }
 
         // Enum declaration: `Abc :: enum A, B, C end`
